@@ -66,7 +66,7 @@ def to_args(op):
     name, o = op[0], op[1]
     a = []
     if name == "create":
-        a.append(rp(o.get("root", "")))
+        a.append(rp(o.get("root", "")) + ("/" if o.get("slash") else ""))
         for f in o.get("fmts", []):
             a += ["-h", f]
         if o.get("n"):
